@@ -1090,7 +1090,61 @@ def run(ctx, big=False):
     res.extra_private = {'trace_records': TRACE_RECORDS}
     if not ctx.search_mode:
         correspondence(ctx, res, TRACE_RECORDS)
+        schedule_correspondence(ctx, res, 500 if (ctx.quick and not big) else 5000)
     return res
+
+
+def schedule_correspondence(ctx, res, n, kind_filter=None):
+    """The machine with the real transaction bodies (coq/model/Txn.v) is run under the same schedule as the
+    implementation (harness/schedcorr.py, coq/model/ConcRun.v sched_check): every BEGIN must find the lock free
+    or busy exactly when the machine says so, every file creation / removal must be the machine's next step,
+    every call must return the machine's outcome and the disk must end in the machine's committed state."""
+    import schedcorr
+    rng = ctx.rng
+    terms, infos, cases = [], [], []
+    st = {'runs': 0, 'events': 0, 'busy_begins': 0, 'timeouts': 0, 'skipped': {}, 'clients': {}, 'file_events': 0, 'rollbacks': 0}
+    named = [(nm, pr, su) for (nm, pr, su, _) in corpus() if schedcorr.supported(pr, su)]
+    tries = 0
+    while len(terms) < n and tries < 3 * n + 50:
+        tries += 1
+        if named and rng.random() < 0.15:
+            nm, programs, setup = rng.choice(named)
+        else:
+            programs, setup = gen_program(rng)
+            nm = 'random'
+        if not schedcorr.supported(programs, setup):
+            st['skipped']['unsupported-op'] = st['skipped'].get('unsupported-op', 0) + 1
+            continue
+        schedule = gen_schedule(rng, programs)
+        mode = rng.choice(['own', 'shared'])
+        r = concdrv.run_program(ctx, programs, schedule, mode=mode, settings=SETTINGS, setup=setup, max_steps=6000, sleep_advances=False)
+        term, info = schedcorr.build(r, programs, setup, SETTINGS)
+        shutil.rmtree(r['dir'], ignore_errors=True)
+        if term is None:
+            st['skipped'][info] = st['skipped'].get(info, 0) + 1
+            continue
+        st['runs'] += 1
+        st['events'] += len(info['events'])
+        st['busy_begins'] += sum(1 for (_, t) in info['events'] if t == 'TBeginBusy')
+        st['rollbacks'] += sum(1 for (_, t) in info['events'] if t == 'TRollback')
+        st['file_events'] += sum(1 for (_, t) in info['events'] if t in ('TCreate', 'TRemove', 'TOpenRead', 'TFetchRead'))
+        st['timeouts'] += sum(1 for row in info['seen'] for x in row if x == 'XTimeout')
+        st['clients'][str(len(programs))] = st['clients'].get(str(len(programs)), 0) + 1
+        terms.append(term)
+        infos.append(info)
+        cases.append({'check': 'schedule-correspondence', 'label': nm, 'programs': programs, 'setup': setup, 'schedule': r['schedule_used'],
+                      'mode': mode, 'settings': SETTINGS})
+    codes, errors = schedcorr.evaluate('c05sc', terms)
+    for e in errors[:2]:
+        res.disagreements.append(fw.Violation('model-eval', 'schedule correspondence could not be evaluated: ' + e[-300:], {}, 'correspondence'))
+    bad = [i for i, c in enumerate(codes) if c != -1]
+    res.traces_validated += len(terms) - len(bad)
+    st['agree'] = len(terms) - len(bad)
+    for i in bad[:3]:
+        res.disagreements.append(fw.Violation('schedule_correspondence', 'machine and implementation differ under the same schedule: '
+                                              + schedcorr.explain(codes[i], infos[i]),
+                                              dict(cases[i], events=infos[i]['events'], returned=infos[i]['seen'], code=codes[i]), 'correspondence'))
+    res.extra['schedule_correspondence'] = st
 
 
 def correspondence(ctx, res, trace_records):
